@@ -1995,7 +1995,7 @@ class KmipEngine(object):
         managed_object_factory = factory.ObjectFactory()
         try:
             managed_object = managed_object_factory.convert(secret)
-        except (TypeError, ValueError) as e:
+        except (TypeError, ValueError, AttributeError) as e:
             raise exceptions.InvalidField(
                 "The object to register is not valid: {0}".format(e)
             )
